@@ -8,6 +8,7 @@ import (
 	"sort"
 	"strconv"
 	"strings"
+	"time"
 
 	"github.com/jsightapi/jsight-schema-core/fs"
 
@@ -78,11 +79,17 @@ func materialize(c *Case) (*diskProject, error) {
 		if err := os.WriteFile(p, content, 0o644); err != nil {
 			return nil, err
 		}
+		// every project file gets the same modification time (as archive extraction or a coarse-grained file
+		// system would give): a result must not depend on time stamps, nor on what an earlier build in this
+		// process read from a file of the same path, size and time
+		os.Chtimes(p, fixedMtime, fixedMtime)
 	}
 	return dp, nil
 }
 
 var workerTmp string
+
+var fixedMtime = time.Unix(1700000000, 0)
 
 func (dp *diskProject) cleanup() { os.RemoveAll(filepath.Join(dp.tmp, "outer")) }
 
